@@ -147,11 +147,13 @@ func WireLayout(fn *ssa.Function, expand map[string]bool, depth int) []WireItem 
 			case id == "encoding/binary.Read" && len(args) == 3:
 				items = []WireItem{{Kind: "bin", Type: sizeName(Strip(args[2]).Type())}}
 			case id == "io.ReadFull" && len(args) == 2:
-				items = []WireItem{{Kind: "raw", Type: lin.LenOf(args[1]).String()}}
+				items = []WireItem{{Kind: "raw", Type: rawLen(lin.LenOf(args[1]))}}
+			case id == "io.CopyN" && len(args) == 3:
+				items = []WireItem{{Kind: "raw", Type: rawLen(lin.Of(args[2]))}}
 			case c.Call.IsInvoke() && c.Call.Method.Name() == "Write" && len(args) == 1:
-				items = []WireItem{{Kind: "raw", Type: lin.LenOf(args[0]).String()}}
+				items = []WireItem{{Kind: "raw", Type: rawLen(lin.LenOf(args[0]))}}
 			case strings.HasSuffix(id, ".Buffer.Write") && len(args) == 2:
-				items = []WireItem{{Kind: "raw", Type: lin.LenOf(args[1]).String()}}
+				items = []WireItem{{Kind: "raw", Type: rawLen(lin.LenOf(args[1]))}}
 			case strings.HasSuffix(id, ".Serialize") || strings.HasSuffix(id, ".Deserialize"):
 				callee := StaticCallee(c)
 				if callee != nil && expand[FuncID(callee)] {
@@ -210,4 +212,13 @@ func LayoutsAgree(w, r []WireItem) (bool, string) {
 		}
 	}
 	return true, ""
+}
+
+// rawLen renders the length of a raw item: the constant, or "var" for a length that depends on
+// data (a length-prefixed blob; the prefix is the preceding item).
+func rawLen(l Lin) string {
+	if k, ok := l.IsConst(); ok {
+		return fmt.Sprint(k)
+	}
+	return "var"
 }
